@@ -127,6 +127,11 @@ func finalProbeMutex(m *csync.Mutex) {
 	if vsched.Ctr(cW) != 0 {
 		return // a harness thread is still parked holding: reported by MustFinish
 	}
+	// (checked before the probe: the probe's own release would wake a waiter that missed a wake-up)
+	if n := vsched.CountParked("Mutex.Lock") + vsched.CountParked("Locker.Lock"); n > 0 {
+		fail("C02.waiter-stuck", "%d caller(s) parked in Lock although nobody holds the mutex and nothing else can happen", n)
+		return
+	}
 	rel, ok := m.TryLock()
 	if !ok {
 		fail("lock-leaked", "C01/C02: TryLock fails after every holder released and every waiter returned: a call that returned an error or a repeated release left the mutex locked")
@@ -138,6 +143,10 @@ func finalProbeMutex(m *csync.Mutex) {
 func finalProbeRW(m *csync.RWMutex) {
 	vsched.Settle()
 	if vsched.Ctr(cW) != 0 || vsched.Ctr(cR) != 0 {
+		return
+	}
+	if n := vsched.CountParked("RWMutex.Lock(write)") + vsched.CountParked("RWMutex.Lock(read)") + vsched.CountParked("Locker.Lock") + vsched.CountParked("RLocker.Lock"); n > 0 {
+		fail("C02.waiter-stuck", "%d caller(s) parked in Lock although nobody holds the RWMutex and nothing else can happen", n)
 		return
 	}
 	rel, ok := m.TryLock(true)
@@ -755,5 +764,61 @@ func init() {
 		Doc:   "RWMutex: as csync-L8 with a writer as the initial holder",
 		Quick: eng.Bounds{PB: 2}, Thorough: eng.Bounds{PB: 3},
 		Body: body(true),
+	})
+}
+
+func init() {
+	bg := context.Background()
+	eng.Register(&eng.Scenario{
+		Name: "csync-many-readers", Props: []string{"C01"}, MustFinish: true, ObsNames: stdObs, Horizon: 60000, NoRace: true,
+		Doc:   "RWMutex with n simultaneous read holders for n in {1, 2, 100, 255, 256, 257, 300, 1000} (choice), acquired through Lock, TryLock and RLocker in turn: a write TryLock is refused while any of them holds, whatever n is, and granted once all have released",
+		Quick: eng.Bounds{PB: 0}, Thorough: eng.Bounds{PB: 0},
+		Body: func() {
+			n := []int{1, 2, 100, 255, 256, 257, 300, 1000}[vsched.Choose(8)]
+			var m csync.RWMutex
+			rels := make([]func(), 0, n)
+			for i := 0; i < n; i++ {
+				switch i % 3 {
+				case 0:
+					rel, err := m.Lock(bg, false)
+					if err != nil {
+						fail("C02.lock-error", "Lock(bg,read) failed: %v", err)
+						return
+					}
+					rels = append(rels, rel)
+				case 1:
+					rel, ok := m.TryLock(false)
+					if !ok {
+						fail("C02.reader-stuck", "TryLock(read) refused although only readers hold the lock and no writer waits (%d readers)", i)
+						return
+					}
+					rels = append(rels, rel)
+				case 2:
+					l := m.RLocker()
+					l.Lock()
+					rels = append(rels, l.Unlock)
+				}
+			}
+			vsched.CtrSet(cR, int64(n))
+			for i, rel := range rels {
+				if r, ok := m.TryLock(true); ok {
+					vsched.CtrSet(cW, 1)
+					fail("C01.exclusion", "TryLock(write) granted while %d of %d read holders have not released", n-i, n)
+					r()
+					return
+				}
+				vsched.CtrAdd(cR, -1)
+				rel()
+				if i >= 3 && i < n-3 {
+					continue // (probe around both ends only; every release is still made)
+				}
+			}
+			r, ok := m.TryLock(true)
+			if !ok {
+				fail("lock-leaked", "C01/C02: TryLock(write) refused after all %d read holders released", n)
+				return
+			}
+			r()
+		},
 	})
 }
